@@ -57,29 +57,33 @@ def gen_case(rng):
     p = rng.choice([2, 3]) if layout == "mat" else 1
     n = rng.randint(2 if layout == "mat" else 1, 10)  # a 1-by-p "matrix" is refused by the constructors (explicit assertion)
     count = kind in ("Poisson", "NegBinom")
+    big_counts = rng.random() < 0.15
     m = n * p
     y = []
     for _ in range(m):
         v = logu(rng, 1e-3, 1e4)
         if count:
-            v = float(max(1, round(logu(rng, 1, 1e4))))
+            v = float(max(1, round(logu(rng, 1, 1e6 if big_counts else 1e4))))
         y.append(v)
     yhat = []
     for i in range(m):
         if rng.random() < 0.5:
             yhat.append(y[i] * math.exp(rng.gauss(0, 0.5)))
         else:
-            yhat.append(logu(rng, 1e-3, 1e4))
+            yhat.append(logu(rng, 1e-3, 1e6 if (count and big_counts) else 1e4))
     spread_form = None
     spread = None
     if kind in SPREAD_ARG:
         spread_form = rng.choice(["default", "float", "int", "array", "array", "int-array", "column-array"])
-        if spread_form == "float":
+        wide = rng.random() < 0.15      # numerical edge: spreads up to 1e8 (near-Poisson NegBinom, near-deterministic Gamma, flat Normal)
+        if spread_form == "float" and wide:
+            spread = logu(rng, 1e3, 1e8)
+        elif spread_form == "float":
             spread = logu(rng, 1e-2, 1e2)
         elif spread_form == "int":
             spread = rng.randint(2, 9)
         elif spread_form in ("array", "column-array"):
-            spread = [logu(rng, 1e-2, 1e2) for _ in range(m)]
+            spread = [logu(rng, 1e3, 1e8) if wide else logu(rng, 1e-2, 1e2) for _ in range(m)]
         elif spread_form == "int-array":       # whole-number spreads held in an integer-dtype ndarray
             spread = [rng.randint(1, 9) for _ in range(m)]
     weights = None
